@@ -365,8 +365,14 @@ func ruleDivisors(rule string) func(*Ctx) {
 					n++
 					kc, isK := bo.Y.(*ssa.Const)
 					okDiv := isK && kc.Value != nil && constant.Sign(kc.Value) != 0
+					if !okDiv && !isK {
+						// a divisor the dominating branches prove positive (n := len(p); if n < 3 { return })
+						if iv := bound(bo.Y, b, 0, map[ssa.Value]bool{}); iv.lo >= 1 || iv.hi <= -1 {
+							okDiv = true
+						}
+					}
 					c.check(okDiv, rule, fmt.Sprintf("%s:%s:div#%d", rule, fn, k), bo.Pos(), fn,
-						"integer divisor is a non-zero constant: "+bo.Y.String(), "integer division/remainder by a value that is not a non-zero constant: "+exprOf(bo.Y),
+						"integer divisor is a non-zero constant, or proven non-zero by the dominating branches: "+bo.Y.String(), "integer division/remainder by a value that is neither a non-zero constant nor proven non-zero by the dominating branches: "+exprOf(bo.Y),
 						"integer division by zero panics")
 				}
 			}
